@@ -28,7 +28,8 @@ PROP = 'C15'
 THEOREMS = ['C15_capacity', 'C15_usage_exact', 'C15_usage_quiescent', 'C15_single_lender',
             'C15_stack_sound', 'C15_asserts_never_fire', 'C15_broken_are_open', 'C15_lent_for_requested_db']
 IMPL = os.path.join(lib.VERIF, 'harness', 'impl', 'c15_impl.py')
-MONITORS = {'M1': 'open(not handed back broken)+opening <= max',
+MONITORS = {'RUNAWAY': 'every atomic section of the pool returns (no unbounded loop / unbounded work)',
+            'M1': 'open(not handed back broken)+opening <= max',
             'M2': 'current_capacity == open+opening (exact when the loop is quiescent)',
             'M3': 'acquire() returns an open, idle, not-lent connection of the requested database',
             'M4': 'disconnect only on open, not-lent, not-already-closing connections'}
@@ -371,15 +372,17 @@ def run(tier):
     known = {e['id']: e for e in lib.known_findings(PROP)}
 
     mon = [(i, m) for i, r in enumerate(res) for m in r.get('mon', [])]
+    mon += [(i, ['RUNAWAY', r['runaway']]) for i, r in enumerate(res) if r.get('runaway')]
     seen_kinds = set()
     for i, m in mon:
         kind = m[0]
         if kind in seen_kinds or len(seen_kinds) >= 3:
             continue
         seen_kinds.add(kind)
-        small = shrink(lines[i], lambda r, k=kind: any(x[0] == k for x in r.get('mon', [])))
+        small = shrink(lines[i], lambda r, k=kind: any(x[0] == k for x in r.get('mon', [])) or
+                       (k == 'RUNAWAY' and r.get('runaway')), budget=120 if kind == 'RUNAWAY' else 400)
         rr = run_impl([small])[0]
-        mm = [x for x in rr.get('mon', []) if x[0] == kind]
+        mm = [x for x in rr.get('mon', []) if x[0] == kind] or ([['RUNAWAY', rr.get('runaway')]] if rr.get('runaway') else [])
         rep.violation(f'monitor {kind} ({MONITORS.get(kind, kind)}) failed on the real Pool: '
                       f'{mm[0][1] if mm else m[1]}',
                       {'case': small, 'original_case': lines[i], 'monitor': kind,
